@@ -222,6 +222,11 @@ Definition m_sort (s : iset) (reverse : bool) : iset :=
   if list_eqb slot_eqb (map Some sl) (items s) then s
   else mkIS (map Some sl) (remap (imap s) sl) [].
 
+Definition m_sort_key (s : iset) (m : nat) (reverse : bool) : iset :=      (* sort(key=..., reverse=...) *)
+  let sl := py_sorted_key (m_live s) m reverse in
+  if list_eqb slot_eqb (map Some sl) (items s) then s
+  else mkIS (map Some sl) (remap (imap s) sl) [].
+
 (* ---- set algebra ------------------------------------------------------------ *)
 Definition m_union (s : iset) (os : list operand) : iset :=
   m_from_list (m_live s ++ all_elems os).                        (* chain(self, *others) *)
@@ -347,6 +352,7 @@ Definition m_step1 (c : cfg) (s : iset) (o : op) : iset * res ret :=
   | Clear => (m_clear s, Ok RNone)
   | Sort r => (m_sort s r, Ok RNone)
   | Reverse => (m_reverse s, Ok RNone)
+  | SortKey m r => (m_sort_key s m r, Ok RNone)
   | Update os => (m_update s os, Ok RNone)
   | IntersectionUpdate os => (m_intersection_update c s os, Ok RNone)
   | DifferenceUpdate os => (m_difference_update c s os, Ok RNone)
